@@ -39,7 +39,13 @@ LMAX = {"quick": 12, "thorough": 16}
 # ------------------------------------------------------------------ stream material
 def valid_item(rng: random.Random, uid: int) -> tuple[bytes, tuple]:
     a, b = (uid >> 8) & 0xFF, uid & 0xFF
-    k = rng.choice(["tun_req", "tun_ack", "cs_res", "disc_req", "disc_res", "conn_res", "rt_ind", "rt_busy", "cfg_ack"])
+    k = rng.choice(["tun_req", "tun_ack", "cs_res", "disc_req", "disc_res", "conn_res", "rt_ind", "rt_busy", "cfg_ack",
+                    "tun_req_long"])
+    if k == "tun_req_long":
+        # frames of very different lengths in one stream (extended cEMI frame with a long APDU)
+        data = bytes((uid + i) & 0xFF for i in range(rng.choice([12, 40, 55, 120, 240])))
+        cemi = W.cemi_ldata(W.L_DATA_IND, 0x1101, 0x0901, tpci_apci=W.gv_write(data))
+        return W.tunnelling_request(a, b, cemi), (W.TUNNEL_REQ, a, b)
     if k == "tun_req":
         cemi = W.cemi_ldata(W.L_DATA_IND, 0x1101, 0x0901, tpci_apci=W.gv_write_small(b & 0x3F))
         return W.tunnelling_request(a, b, cemi), (W.TUNNEL_REQ, a, b)
@@ -130,6 +136,15 @@ def gen(seed: int, tier: str) -> dict[str, Any]:
     else:
         n = rng.choice([2, 3, 5, 8, 20]) if shape != "long" else rng.choice([300, 990, 1100, 2000])
         pm = rng.choice([0.0, 0.2, 0.5]) if shape != "long" else rng.choice([0.0, 0.02])
+        if shape == "medium" and rng.random() < 0.25:
+            # one very long frame first, then a short tail (shorter than that frame) with malformed frames in it: whatever the
+            # transport remembers about the long frame must not govern the frames behind it
+            data = bytes((uid + i_) & 0xFF for i_ in range(rng.choice([120, 240])))
+            raw = W.tunnelling_request(uid >> 8 & 0xFF, uid & 0xFF, W.cemi_ldata(W.L_DATA_IND, 0x1101, 0x0901, tpci_apci=W.gv_write(data)))
+            items.append({"k": "A", "hex": raw.hex(), "key": [W.TUNNEL_REQ, uid >> 8 & 0xFF, uid & 0xFF]})
+            uid += 1
+            n = rng.choice([2, 3, 5])
+            pm = 0.4
         for _ in range(n):
             if rng.random() < pm:
                 items.append({"k": "B", "hex": malformed_item(rng).hex()})
@@ -151,6 +166,16 @@ def gen(seed: int, tier: str) -> dict[str, Any]:
             ncut = rng.randint(1, max(1, min(40, total - 1)))
             cuts = sorted(rng.sample(range(1, total), min(ncut, total - 1))) if total > 1 else []
             chunkings.append({"mode": "cuts", "cuts": cuts})
+        # every (or every other) frame arrives in two parts, never cut at a frame boundary: the remainder of one frame and the
+        # beginning of the next always share a chunk
+        for p_in in (1.0, 0.5):
+            offs, pos = [], 0
+            for it_ in items:
+                ln_ = len(it_["hex"]) // 2
+                if ln_ >= 2 and rng.random() < p_in:
+                    offs.append(pos + rng.randrange(1, ln_))
+                pos += ln_
+            chunkings.append({"mode": "cuts", "cuts": offs})
     policy = None
     if proto == "udp" and rng.random() < 0.5:
         policy = {"drop": 0.1, "dup": 0.1, "delay": 0.1}
